@@ -242,6 +242,34 @@ Definition file_roundtrip (update_structure : bool) (x : fpx) : result fpx :=
 Definition filez_roundtrip (update_structure : bool) (xs : list fpx) : result (list fpx) :=
   rmap (file_roundtrip update_structure) xs.
 
+(* The same with the byte level made explicit.  pickle and the file layer (smart_open + gzip / bz2 by extension,
+   pickles written one after the other, read back until EOFError) are not modelled: they are parameters, and the
+   theorems about them assume exactly that loads inverts dumps and that reading a written file returns the written
+   pickles.  `pickle_roundtrip`, `file_roundtrip`, `filez_roundtrip` above are these functions at the identity codec
+   (that is what the correspondence evaluates). *)
+Inductive file_ext := XPkl | XGz | XBz2.      (* .fp.pkl / .fp.gz / .fp.bz2 *)
+
+Definition update_structure_x (u : bool) (y : fpx) : result fpx :=
+  if u then from_fingerprint_x (fkind (xfp y)) y else Ok y.
+
+Section Codec.
+  Variables pbytes fbytes : Type.
+  Variable pkl_dumps : pstate -> pbytes.                      (* pickle.dumps(fp, protocol) : pickles __getstate__() *)
+  Variable pkl_loads : pbytes -> pstate.                      (* pickle.loads *)
+  Variable file_write : file_ext -> list pbytes -> fbytes.    (* with smart_open.open(f, "wb"): one dump per fingerprint *)
+  Variable file_read : file_ext -> fbytes -> list pbytes.     (* with smart_open.open(f, "rb"): load until EOFError *)
+
+  Definition pickle_via (x : fpx) : fpx := setstate (pkl_loads (pkl_dumps (getstate x))).
+
+  Definition filez_via (e : file_ext) (u : bool) (xs : list fpx) : result (list fpx) :=
+    rmap (fun b => update_structure_x u (setstate (pkl_loads b)))
+         (file_read e (file_write e (map (fun x => pkl_dumps (getstate x)) xs))).
+
+  (* load(f): the first fingerprint of the file, None for an empty file *)
+  Definition file_via (e : file_ext) (u : bool) (x : fpx) : result (option fpx) :=
+    rbind (filez_via e u [x]) (fun ys => Ok (hd_error ys)).
+End Codec.
+
 (* ---- index array ------------------------------------------------------------------------------------ *)
 (* cls.from_indices(fp.indices, [counts=fp.counts,] bits=fp.bits, level=.., name=..) *)
 Definition from_indices_of (a : fp) (lv : option (option Z)) (nm : option string) : result fp :=
